@@ -13,28 +13,71 @@ def addrOf : Effect → Option Addr
   | .dispatchDisconnect b => some b
   | .sendTo b _ => some b
   | .ping b => some b
+  | .drop b => some b
   | _ => none
 
-theorem concerns_iff {a : Addr} {e : Effect} : concerns a e = true ↔ addrOf e = some a := by
-  cases e <;> simp [concerns, addrOf]
+theorem concerns_addr {a : Addr} {e : Effect} (h : concerns a e = true) : addrOf e = some a := by
+  cases e <;> simp [concerns, addrOf] at h ⊢ <;> exact h
+
+/-- An effect about somebody else is nothing for `a`. -/
+theorem silent_of_addr_ne {a : Addr} {e : Effect} (h : addrOf e ≠ some a) : concerns a e = false ∧ e ≠ .drop a := by
+  constructor
+  · cases hc : concerns a e
+    · rfl
+    · exact absurd (concerns_addr hc) h
+  · intro he; subst he; exact h rfl
+
+theorem mem_onMessage {h : Handlers} {a : Addr} {m : Msg} {e : Effect} (he : e ∈ onMessage h a m) :
+    e = .dispatchMessage a m := by
+  unfold onMessage at he
+  split at he <;> simp at he
+  exact he
+
+theorem mem_onGone {h : Handlers} {a : Addr} {e : Effect} (he : e ∈ onGone h a) :
+    e = .dispatchDisconnect a ∨ e = .drop a := by
+  unfold onGone at he
+  simp only [List.mem_append, List.mem_singleton] at he
+  rcases he with he | he
+  · split at he <;> simp at he
+    exact Or.inl he
+  · exact Or.inr he
+
+theorem mem_onConnect {h : Handlers} {a : Addr} {e : Effect} (he : e ∈ onConnect h a) :
+    e = .dispatchConnect a := by
+  unfold onConnect at he
+  split at he <;> simp at he
+  exact he
+
+theorem flatMap_onMessage (h : Handlers) (a : Addr) (ms : List Msg) :
+    ms.flatMap (onMessage h a) = if h.message then ms.map (.dispatchMessage a) else [] := by
+  induction ms with
+  | nil => simp
+  | cons m ms ih => rw [List.flatMap_cons, ih]; cases hm : h.message <;> simp [onMessage, hm]
+
+theorem flatMap_onConnect (h : Handlers) (inc : List Addr) :
+    inc.flatMap (onConnect h) = if h.connect then inc.map .dispatchConnect else [] := by
+  induction inc with
+  | nil => simp
+  | cons b inc ih => rw [List.flatMap_cons, ih]; cases hc : h.connect <;> simp [onConnect, hc]
 
 theorem isMsgOf_addr {a : Addr} {e : Effect} (h : isMsgOf a e = true) : addrOf e = some a := by
   cases e <;> simp [isMsgOf, msgOf, addrOf] at h ⊢
   rename_i b m
   by_cases hb : b = a <;> simp [hb] at h ⊢
 
-theorem addr_pollEffects {w : Bool} {p : Poll} {e : Effect} (h : e ∈ pollEffects w p) :
+theorem addr_pollEffects {h : Handlers} {w : Bool} {p : Poll} {e : Effect} (he : e ∈ pollEffects h w p) :
     addrOf e = some p.addr := by
-  unfold pollEffects at h
-  rw [List.mem_append] at h
-  rcases h with h | h
-  · simp only [List.mem_map] at h
-    obtain ⟨m, _, rfl⟩ := h; rfl
-  · split at h
-    · simp at h; subst h; rfl
-    · split at h
-      · simp at h; subst h; rfl
-      · simp at h
+  unfold pollEffects at he
+  rw [List.mem_append] at he
+  rcases he with he | he
+  · simp only [List.mem_flatMap] at he
+    obtain ⟨m, _, hm⟩ := he
+    rw [mem_onMessage hm]; rfl
+  · split at he
+    · rcases mem_onGone he with rfl | rfl <;> rfl
+    · split at he
+      · simp at he; subst he; rfl
+      · simp at he
 
 theorem mem_recipients {st order : List Addr} {b : Addr} : b ∈ recipients st order ↔ b ∈ st := by
   unfold recipients
@@ -72,12 +115,12 @@ theorem mem_flush {st : List Addr} {out : List Out} {e : Effect} (h : e ∈ flus
   exact mem_deliver ho
 
 /-- Every effect of an iteration is about a client that was connected before it or is admitted in it. -/
-theorem addr_iterEffects {st : List Addr} {i : IterInput} (hp : ∀ p ∈ i.polls, p.addr ∈ st) {e : Effect}
-    (h : e ∈ iterEffects st i) : ∃ b, addrOf e = some b ∧ (b ∈ st ∨ b ∈ i.incoming) := by
-  simp only [iterEffects, List.mem_append, List.mem_flatMap, List.mem_map] at h
-  rcases h with (⟨p, hp', he⟩ | ⟨b, hb, rfl⟩) | h
+theorem addr_iterEffects {h : Handlers} {st : List Addr} {i : IterInput} (hp : ∀ p ∈ i.polls, p.addr ∈ st)
+    {e : Effect} (h : e ∈ iterEffects h st i) : ∃ b, addrOf e = some b ∧ (b ∈ st ∨ b ∈ i.incoming) := by
+  simp only [iterEffects, List.mem_append, List.mem_flatMap] at h
+  rcases h with (⟨p, hp', he⟩ | ⟨b, hb, he⟩) | h
   · exact ⟨p.addr, addr_pollEffects he, Or.inl (hp p hp')⟩
-  · exact ⟨b, rfl, Or.inr hb⟩
+  · exact ⟨b, by rw [mem_onConnect he]; rfl, Or.inr hb⟩
   · obtain ⟨b, bytes, rfl, hb⟩ := mem_flush h
     refine ⟨b, rfl, ?_⟩
     rcases mem_nextStreams.1 hb with h | h
@@ -93,52 +136,60 @@ theorem filterMap_eq_nil_of {α β : Type} {f : α → Option β} : ∀ {l : Lis
 
 /-! ### Messages -/
 
-theorem filterMap_msgOf_pollEffects (a : Addr) (w : Bool) (p : Poll) :
-    (pollEffects w p).filterMap (msgOf a) = if p.addr = a then msgs p.results else [] := by
+theorem filterMap_msgOf_pollEffects (h : Handlers) (a : Addr) (w : Bool) (p : Poll) :
+    (pollEffects h w p).filterMap (msgOf a) =
+      if h.message then (if p.addr = a then msgs p.results else []) else [] := by
   unfold pollEffects
   rw [List.filterMap_append]
-  have h2 : (if closes p then [Effect.dispatchDisconnect p.addr] else if w then [Effect.ping p.addr] else []).filterMap
+  have h2 : (if closes p then onGone h p.addr else if w then [Effect.ping p.addr] else []).filterMap
       (msgOf a) = [] := by
     apply filterMap_eq_nil_of
     intro e he
     split at he
-    · simp at he; subst he; rfl
+    · rcases mem_onGone he with rfl | rfl <;> rfl
     · split at he
       · simp at he; subst he; rfl
       · simp at he
-  rw [h2, List.append_nil, List.filterMap_map]
-  by_cases h : p.addr = a
-  · simp only [h, if_true]
-    have : (msgOf a ∘ Effect.dispatchMessage a) = some := by
-      funext m; simp [msgOf]
-    rw [this]; simp
-  · simp only [h, if_false]
-    apply filterMap_eq_nil_of
-    intro m _
-    simp [msgOf, h]
+  rw [h2, List.append_nil, flatMap_onMessage]
+  cases hm : h.message
+  · simp
+  · simp only [if_true, List.filterMap_map]
+    by_cases hpa : p.addr = a
+    · simp only [hpa, if_true]
+      have : (msgOf a ∘ Effect.dispatchMessage a) = some := by
+        funext m; simp [msgOf]
+      rw [this]; simp
+    · simp only [hpa, if_false]
+      apply filterMap_eq_nil_of
+      intro m _
+      simp [msgOf, hpa]
 
-theorem filterMap_msgOf_iterEffects (a : Addr) (st : List Addr) (i : IterInput) :
-    (iterEffects st i).filterMap (msgOf a) =
-      i.polls.flatMap fun p => if p.addr = a then msgs p.results else [] := by
+theorem filterMap_msgOf_iterEffects (h : Handlers) (a : Addr) (st : List Addr) (i : IterInput) :
+    (iterEffects h st i).filterMap (msgOf a) =
+      if h.message then (i.polls.flatMap fun p => if p.addr = a then msgs p.results else []) else [] := by
   unfold iterEffects
   rw [List.filterMap_append, List.filterMap_append, List.filterMap_flatMap]
-  have h1 : (i.incoming.map Effect.dispatchConnect).filterMap (msgOf a) = [] := by
+  have h1 : (i.incoming.flatMap (onConnect h)).filterMap (msgOf a) = [] := by
     apply filterMap_eq_nil_of
     intro e he
-    simp only [List.mem_map] at he
-    obtain ⟨b, _, rfl⟩ := he; rfl
+    simp only [List.mem_flatMap] at he
+    obtain ⟨b, _, hb⟩ := he
+    rw [mem_onConnect hb]; rfl
   have h2 : (flush (nextStreams st i) i.outgoing).filterMap (msgOf a) = [] := by
     apply filterMap_eq_nil_of
     intro e he
     obtain ⟨b, bytes, rfl, _⟩ := mem_flush he; rfl
   rw [h1, h2]
   simp only [List.append_nil]
-  congr 1
-  funext p
-  exact filterMap_msgOf_pollEffects a i.willPing p
+  have : (fun p => (pollEffects h i.willPing p).filterMap (msgOf a)) =
+      fun p => if h.message then (if p.addr = a then msgs p.results else []) else [] := by
+    funext p
+    exact filterMap_msgOf_pollEffects h a i.willPing p
+  rw [this]
+  cases hm : h.message <;> simp
 
-theorem messages_runEffects (a : Addr) : ∀ (is : List IterInput) (st : List Addr),
-    (runEffects st is).filterMap (msgOf a) = received a is := by
+theorem messages_runEffects (h : Handlers) (a : Addr) : ∀ (is : List IterInput) (st : List Addr),
+    (runEffects h st is).filterMap (msgOf a) = if h.message then received a is else [] := by
   intro is
   induction is with
   | nil => intro st; simp [runEffects, received, executed]
@@ -147,6 +198,7 @@ theorem messages_runEffects (a : Addr) : ∀ (is : List IterInput) (st : List Ad
     cases hs : i.shutdown
     · simp only [runEffects, hs, Bool.false_eq_true, if_false, List.filterMap_append, ih,
         filterMap_msgOf_iterEffects, received, executed, List.flatMap_cons]
+      cases hm : h.message <;> simp
     · simp [runEffects, hs, received, executed, msgOf]
 
 /-! ### Connect -/
@@ -158,31 +210,32 @@ theorem count_connect_map (a : Addr) : ∀ (inc : List Addr),
     simp only [List.map_cons, List.count_cons, count_connect_map a inc]
     by_cases h : b = a <;> simp [h]
 
-theorem count_connect_iterEffects (a : Addr) (st : List Addr) (i : IterInput) :
-    (iterEffects st i).count (.dispatchConnect a) = i.incoming.count a := by
+theorem count_connect_iterEffects (h : Handlers) (a : Addr) (st : List Addr) (i : IterInput) :
+    (iterEffects h st i).count (.dispatchConnect a) = if h.connect then i.incoming.count a else 0 := by
   unfold iterEffects
-  rw [List.count_append, List.count_append, count_connect_map]
-  have h1 : (i.polls.flatMap (pollEffects i.willPing)).count (.dispatchConnect a) = 0 := by
+  rw [List.count_append, List.count_append, flatMap_onConnect]
+  have h1 : (i.polls.flatMap (pollEffects h i.willPing)).count (.dispatchConnect a) = 0 := by
     apply List.count_eq_zero_of_not_mem
-    intro h
-    simp only [List.mem_flatMap] at h
-    obtain ⟨p, _, he⟩ := h
+    intro hm
+    simp only [List.mem_flatMap] at hm
+    obtain ⟨p, _, he⟩ := hm
     unfold pollEffects at he
-    simp only [List.mem_append, List.mem_map] at he
+    simp only [List.mem_append, List.mem_flatMap] at he
     rcases he with ⟨m, _, hm⟩ | he
-    · cases hm
+    · cases mem_onMessage hm
     · split at he
-      · simp at he
+      · rcases mem_onGone he with he | he <;> cases he
       · split at he <;> simp at he
   have h2 : (flush (nextStreams st i) i.outgoing).count (.dispatchConnect a) = 0 := by
     apply List.count_eq_zero_of_not_mem
-    intro h
-    obtain ⟨b, bytes, hb, _⟩ := mem_flush h
+    intro hm
+    obtain ⟨b, bytes, hb, _⟩ := mem_flush hm
     cases hb
-  rw [h1, h2]; simp
+  rw [h1, h2]
+  cases hc : h.connect <;> simp [count_connect_map]
 
-theorem count_connect_runEffects (a : Addr) : ∀ (is : List IterInput) (st : List Addr),
-    (runEffects st is).count (.dispatchConnect a) = (admitted is).count a := by
+theorem count_connect_runEffects (h : Handlers) (a : Addr) : ∀ (is : List IterInput) (st : List Addr),
+    (runEffects h st is).count (.dispatchConnect a) = if h.connect then (admitted is).count a else 0 := by
   intro is
   induction is with
   | nil => intro st; simp [runEffects, admitted, executed]
@@ -191,11 +244,30 @@ theorem count_connect_runEffects (a : Addr) : ∀ (is : List IterInput) (st : Li
     cases hs : i.shutdown
     · simp only [runEffects, hs, Bool.false_eq_true, if_false, List.count_append, ih,
         count_connect_iterEffects, admitted, executed, List.flatMap_cons]
+      cases hc : h.connect <;> simp
     · simp [runEffects, hs, admitted, executed]
+
+/-- With a connect handler the connect part of an iteration is one dispatch per admitted stream. -/
+theorem iterEffects_connect {h : Handlers} (hc : h.connect = true) (st : List Addr) (i : IterInput) :
+    iterEffects h st i = i.polls.flatMap (pollEffects h i.willPing) ++ i.incoming.map .dispatchConnect ++
+      flush (nextStreams st i) i.outgoing := by
+  unfold iterEffects
+  rw [flatMap_onConnect, if_pos hc]
 
 
 /-- All addresses admitted by the given inputs (whether executed or not). -/
 def allIncoming (is : List IterInput) : List Addr := is.flatMap (·.incoming)
+
+/-- The clients admitted in the executed iterations are among all incoming addresses. -/
+theorem admitted_sublist (is : List IterInput) : (admitted is).Sublist (allIncoming is) := by
+  unfold admitted allIncoming
+  induction is with
+  | nil => simp [executed]
+  | cons i is ih =>
+    cases hs : i.shutdown
+    · simp only [executed, hs, Bool.false_eq_true, if_false, List.flatMap_cons]
+      exact List.Sublist.append (List.Sublist.refl _) ih
+    · simp [executed, hs]
 
 theorem mem_takeWhile_append {α : Type} {p : α → Bool} : ∀ {L R : List α} {e : α},
     e ∈ (L ++ R).takeWhile p → (e ∈ L) ∨ ((∀ x ∈ L, p x = true) ∧ e ∈ R.takeWhile p)
@@ -230,8 +302,9 @@ theorem runOk'_cons {st : List Addr} {i : IterInput} {is : List IterInput} (hs :
   obtain ⟨hnd, hmem, _, _⟩ := (inputsOk_iff (s := { streams := st }) hs).1 h.1
   exact ⟨hnd, hmem, h.2⟩
 
-theorem before_runEffects (a : Addr) : ∀ (is : List IterInput) (st : List Addr), a ∉ st → RunOk' st is →
-    ∀ e ∈ (runEffects st is).takeWhile (· != .dispatchConnect a), isMsgOf a e = false := by
+theorem before_runEffects {h : Handlers} (hc : h.connect = true) (a : Addr) :
+    ∀ (is : List IterInput) (st : List Addr), a ∉ st → RunOk' st is →
+    ∀ e ∈ (runEffects h st is).takeWhile (· != .dispatchConnect a), isMsgOf a e = false := by
   intro is
   induction is with
   | nil => intro st _ _ e he; simp [runEffects] at he
@@ -244,7 +317,7 @@ theorem before_runEffects (a : Addr) : ∀ (is : List IterInput) (st : List Addr
       · -- an effect of this iteration that comes before the connect dispatch (if there is one)
         by_cases hinc : a ∈ i.incoming
         · -- it is in the poll part or the connect part
-          unfold iterEffects at he
+          rw [iterEffects_connect hc] at he
           rw [List.append_assoc, List.append_assoc] at he
           rcases mem_takeWhile_append he with h' | ⟨_, h'⟩
           · simp only [List.mem_flatMap] at h'
@@ -271,7 +344,7 @@ theorem before_runEffects (a : Addr) : ∀ (is : List IterInput) (st : List Addr
       · -- the connect dispatch is not in this iteration
         have hinc : a ∉ i.incoming := by
           intro hinc
-          have := hall (.dispatchConnect a) (by simp [iterEffects, hinc])
+          have := hall (.dispatchConnect a) (by simp [iterEffects_connect hc, hinc])
           simp at this
         have hnot : a ∉ nextStreams st i := by
           intro hn
@@ -303,72 +376,127 @@ theorem deliver_broadcast_count {st : List Addr} (hn : st.Nodup) (m : Msg) (orde
 
 /-! ### Shutdown -/
 
-theorem runEffects_shutdown : ∀ (pre : List IterInput) (i : IterInput) (post : List IterInput) (st : List Addr),
+theorem runEffects_shutdown (h : Handlers) :
+    ∀ (pre : List IterInput) (i : IterInput) (post : List IterInput) (st : List Addr),
     (∀ j ∈ pre, j.shutdown = false) → i.shutdown = true →
-    runEffects st (pre ++ i :: post) = runEffects st pre ++ [.exit]
+    runEffects h st (pre ++ i :: post) = runEffects h st pre ++ [.exit]
   | [], i, post, st, _, hi => by simp [runEffects, hi]
   | j :: pre, i, post, st, hpre, hi => by
     have hj : j.shutdown = false := hpre j (by simp)
     simp only [List.cons_append, runEffects, hj, Bool.false_eq_true, if_false, List.append_assoc]
-    rw [runEffects_shutdown pre i post _ (fun k hk => hpre k (by simp [hk])) hi]
+    rw [runEffects_shutdown h pre i post _ (fun k hk => hpre k (by simp [hk])) hi]
 
-theorem exit_not_mem_runEffects : ∀ (pre : List IterInput) (st : List Addr),
+theorem exit_not_mem_runEffects (h : Handlers) : ∀ (pre : List IterInput) (st : List Addr),
     (∀ j ∈ pre, j.shutdown = false) → RunOk' st pre →
-    Effect.exit ∉ runEffects st pre
+    Effect.exit ∉ runEffects h st pre
   | [], st, _, _ => by simp [runEffects]
   | j :: pre, st, hpre, hok => by
     have hj : j.shutdown = false := hpre j (by simp)
     obtain ⟨_, hmem, hnext⟩ := runOk'_cons hj hok
     simp only [runEffects, hj, Bool.false_eq_true, if_false, List.mem_append, not_or]
-    refine ⟨?_, exit_not_mem_runEffects pre _ (fun k hk => hpre k (by simp [hk])) hnext⟩
-    intro h
-    obtain ⟨b, hb, _⟩ := addr_iterEffects hmem h
+    refine ⟨?_, exit_not_mem_runEffects h pre _ (fun k hk => hpre k (by simp [hk])) hnext⟩
+    intro hx
+    obtain ⟨b, hb, _⟩ := addr_iterEffects hmem hx
     simp [addrOf] at hb
 
 
-/-! ### Disconnect -/
+/-! ### Disconnect and removal -/
 
 /-- The closing polls of `a` in an iteration. -/
 def closers (a : Addr) (i : IterInput) : List Poll := i.polls.filter fun p => p.addr == a && closes p
 
-theorem count_dd_pollEffects (a : Addr) (w : Bool) (p : Poll) :
-    (pollEffects w p).count (.dispatchDisconnect a) = if (p.addr == a && closes p) = true then 1 else 0 := by
+theorem count_dd_onGone (h : Handlers) (a b : Addr) :
+    (onGone h b).count (.dispatchDisconnect a) = if h.disconnect then (if b = a then 1 else 0) else 0 := by
+  unfold onGone
+  cases hd : h.disconnect <;> by_cases hb : b = a <;> simp [hb]
+
+theorem count_drop_onGone (h : Handlers) (a b : Addr) :
+    (onGone h b).count (.drop a) = if b = a then 1 else 0 := by
+  unfold onGone
+  cases hd : h.disconnect <;> by_cases hb : b = a <;> simp [hb]
+
+theorem count_dd_pollEffects (h : Handlers) (a : Addr) (w : Bool) (p : Poll) :
+    (pollEffects h w p).count (.dispatchDisconnect a) =
+      if h.disconnect then (if (p.addr == a && closes p) = true then 1 else 0) else 0 := by
   unfold pollEffects
   rw [List.count_append]
-  have h1 : ((msgs p.results).map (Effect.dispatchMessage p.addr)).count (.dispatchDisconnect a) = 0 := by
+  have h1 : ((msgs p.results).flatMap (onMessage h p.addr)).count (.dispatchDisconnect a) = 0 := by
     apply List.count_eq_zero_of_not_mem
-    simp
+    intro hm
+    simp only [List.mem_flatMap] at hm
+    obtain ⟨m, _, hm⟩ := hm
+    cases mem_onMessage hm
   rw [h1]
   by_cases hc : closes p = true
-  · by_cases ha : p.addr = a
-    · simp [hc, ha]
-    · simp [hc, ha]
+  · rw [if_pos hc, count_dd_onGone]
+    cases hd : h.disconnect <;> by_cases ha : p.addr = a <;> simp [hc, ha]
+  · cases hd : h.disconnect <;> cases w <;> simp [hc]
+
+theorem count_drop_pollEffects (h : Handlers) (a : Addr) (w : Bool) (p : Poll) :
+    (pollEffects h w p).count (.drop a) = if (p.addr == a && closes p) = true then 1 else 0 := by
+  unfold pollEffects
+  rw [List.count_append]
+  have h1 : ((msgs p.results).flatMap (onMessage h p.addr)).count (.drop a) = 0 := by
+    apply List.count_eq_zero_of_not_mem
+    intro hm
+    simp only [List.mem_flatMap] at hm
+    obtain ⟨m, _, hm⟩ := hm
+    cases mem_onMessage hm
+  rw [h1]
+  by_cases hc : closes p = true
+  · rw [if_pos hc, count_drop_onGone]
+    by_cases ha : p.addr = a <;> simp [hc, ha]
   · cases w <;> simp [hc]
 
-theorem count_dd_polls (a : Addr) (w : Bool) : ∀ (ps : List Poll),
-    (ps.flatMap (pollEffects w)).count (.dispatchDisconnect a) =
-      (ps.filter fun p => p.addr == a && closes p).length
+theorem count_dd_polls (h : Handlers) (a : Addr) (w : Bool) : ∀ (ps : List Poll),
+    (ps.flatMap (pollEffects h w)).count (.dispatchDisconnect a) =
+      if h.disconnect then (ps.filter fun p => p.addr == a && closes p).length else 0
+  | [] => by simp
+  | p :: ps => by
+    rw [List.flatMap_cons, List.count_append, count_dd_pollEffects, count_dd_polls h a w ps, List.filter_cons]
+    cases hd : h.disconnect
+    · simp
+    · simp only [if_true]
+      split <;> simp <;> omega
+
+theorem count_drop_polls (h : Handlers) (a : Addr) (w : Bool) : ∀ (ps : List Poll),
+    (ps.flatMap (pollEffects h w)).count (.drop a) = (ps.filter fun p => p.addr == a && closes p).length
   | [] => rfl
   | p :: ps => by
-    rw [List.flatMap_cons, List.count_append, count_dd_pollEffects, count_dd_polls a w ps, List.filter_cons]
+    rw [List.flatMap_cons, List.count_append, count_drop_pollEffects, count_drop_polls h a w ps, List.filter_cons]
     split <;> simp <;> omega
 
-theorem count_dd_iterEffects (a : Addr) (st : List Addr) (i : IterInput) :
-    (iterEffects st i).count (.dispatchDisconnect a) = (closers a i).length := by
-  unfold iterEffects closers
-  rw [List.count_append, List.count_append, count_dd_polls]
-  have h1 : (i.incoming.map Effect.dispatchConnect).count (.dispatchDisconnect a) = 0 := by
-    apply List.count_eq_zero_of_not_mem
-    simp
-  have h2 : (flush (nextStreams st i) i.outgoing).count (.dispatchDisconnect a) = 0 := by
-    apply List.count_eq_zero_of_not_mem
-    intro h
-    obtain ⟨b, bytes, hb, _⟩ := mem_flush h
-    cases hb
-  rw [h1, h2]; simp
+/-- Neither the connect dispatches nor the flush contain an effect of the shape `x` when `x` is a disconnect
+dispatch or a removal. -/
+theorem not_mem_tail_iter {h : Handlers} {st : List Addr} {i : IterInput} {x : Effect}
+    (hx : (∃ a, x = .dispatchDisconnect a) ∨ (∃ a, x = .drop a)) :
+    x ∉ i.incoming.flatMap (onConnect h) ++ flush (nextStreams st i) i.outgoing := by
+  intro hm
+  rw [List.mem_append] at hm
+  rcases hm with hm | hm
+  · simp only [List.mem_flatMap] at hm
+    obtain ⟨b, _, hb⟩ := hm
+    have := mem_onConnect hb
+    rcases hx with ⟨a, rfl⟩ | ⟨a, rfl⟩ <;> cases this
+  · obtain ⟨b, bytes, hb, _⟩ := mem_flush hm
+    rcases hx with ⟨a, rfl⟩ | ⟨a, rfl⟩ <;> cases hb
 
-theorem count_dd_runEffects (a : Addr) : ∀ (is : List IterInput) (st : List Addr),
-    (runEffects st is).count (.dispatchDisconnect a) = closings a is := by
+theorem count_dd_iterEffects (h : Handlers) (a : Addr) (st : List Addr) (i : IterInput) :
+    (iterEffects h st i).count (.dispatchDisconnect a) = if h.disconnect then (closers a i).length else 0 := by
+  unfold iterEffects closers
+  rw [List.append_assoc, List.count_append, count_dd_polls,
+    List.count_eq_zero_of_not_mem (not_mem_tail_iter (Or.inl ⟨a, rfl⟩))]
+  simp
+
+theorem count_drop_iterEffects (h : Handlers) (a : Addr) (st : List Addr) (i : IterInput) :
+    (iterEffects h st i).count (.drop a) = (closers a i).length := by
+  unfold iterEffects closers
+  rw [List.append_assoc, List.count_append, count_drop_polls,
+    List.count_eq_zero_of_not_mem (not_mem_tail_iter (Or.inr ⟨a, rfl⟩))]
+  simp
+
+theorem count_dd_runEffects (h : Handlers) (a : Addr) : ∀ (is : List IterInput) (st : List Addr),
+    (runEffects h st is).count (.dispatchDisconnect a) = if h.disconnect then closings a is else 0 := by
   intro is
   induction is with
   | nil => intro st; simp [runEffects, closings, executed]
@@ -377,6 +505,19 @@ theorem count_dd_runEffects (a : Addr) : ∀ (is : List IterInput) (st : List Ad
     cases hs : i.shutdown
     · simp only [runEffects, hs, Bool.false_eq_true, if_false, List.count_append, ih,
         count_dd_iterEffects, closings, executed, List.map_cons, List.sum_cons, closers]
+      cases hd : h.disconnect <;> simp
+    · simp [runEffects, hs, closings, executed]
+
+theorem count_drop_runEffects (h : Handlers) (a : Addr) : ∀ (is : List IterInput) (st : List Addr),
+    (runEffects h st is).count (.drop a) = closings a is := by
+  intro is
+  induction is with
+  | nil => intro st; simp [runEffects, closings, executed]
+  | cons i is ih =>
+    intro st
+    cases hs : i.shutdown
+    · simp only [runEffects, hs, Bool.false_eq_true, if_false, List.count_append, ih,
+        count_drop_iterEffects, closings, executed, List.map_cons, List.sum_cons, closers]
     · simp [runEffects, hs, closings, executed]
 
 theorem closers_length_le_one {a : Addr} {i : IterInput} (hnd : (i.polls.map (·.addr)).Nodup) :
@@ -442,6 +583,22 @@ theorem nodup_step {st : List Addr} {i : IterInput} {is : List IterInput}
   · intro a ha hb
     exact h6 a ha a hb rfl
 
+/-- A client found closed in an iteration was in the table and is not in it afterwards. -/
+theorem gone_after_close {a : Addr} {st : List Addr} {i : IterInput} {is : List IterInput}
+    (hmem : ∀ p ∈ i.polls, p.addr ∈ st) (hnd : (st ++ allIncoming (i :: is)).Nodup)
+    {p : Poll} (hp : p ∈ i.polls) (hpa : p.addr = a) (hpc : closes p = true) :
+    a ∈ st ∧ closedIn i a = true ∧ a ∉ nextStreams st i ∧ a ∉ allIncoming is := by
+  obtain ⟨_, hst, _⟩ := nodup_step hnd
+  have hast : a ∈ st := hpa ▸ hmem p hp
+  have hclosed : closedIn i a = true := by
+    simp only [closedIn, List.any_eq_true]
+    exact ⟨p, hp, by simp [hpa, hpc]⟩
+  refine ⟨hast, hclosed, ?_, (hst a hast).2⟩
+  intro hn
+  rcases mem_nextStreams.1 hn with h | h
+  · simp [hclosed] at h
+  · exact (hst a hast).1 h
+
 theorem closings_le_one (a : Addr) : ∀ (is : List IterInput) (st : List Addr), RunOk' st is →
     (st ++ allIncoming is).Nodup →
     closings a is ≤ 1 ∧ (a ∉ st → a ∉ allIncoming is → closings a is = 0) := by
@@ -462,16 +619,8 @@ theorem closings_le_one (a : Addr) : ∀ (is : List IterInput) (st : List Addr),
       · by_cases hc : closers a i = []
         · simp [hc]; exact ih1
         · obtain ⟨p, hp, hpa, hpc⟩ := closedIn_of_closers hc
-          have hast : a ∈ st := hpa ▸ hmem p hp
-          have hnot : a ∉ nextStreams st i := by
-            intro hn
-            rcases mem_nextStreams.1 hn with h | h
-            · have : closedIn i a = true := by
-                simp only [closedIn, List.any_eq_true]
-                exact ⟨p, hp, by simp [hpa, hpc]⟩
-              simp [this] at h
-            · exact (hst a hast).1 h
-          rw [ih2 hnot (hst a hast).2]
+          obtain ⟨_, _, hnot, hinc⟩ := gone_after_close hmem hnd hp hpa hpc
+          rw [ih2 hnot hinc]
           omega
       · intro h1 h2
         have hc : closers a i = [] := by
@@ -489,24 +638,96 @@ theorem closings_le_one (a : Addr) : ∀ (is : List IterInput) (st : List Addr),
         rfl
     · simp [closings, executed, hs]
 
-
-theorem silent_iter {a : Addr} {st : List Addr} {i : IterInput} (hmem : ∀ p ∈ i.polls, p.addr ∈ st)
-    (h1 : a ∉ st) (h2 : a ∉ i.incoming) : ∀ e ∈ iterEffects st i, concerns a e = false := by
+/-- An iteration does nothing for a client that is neither in the table nor admitted in it. -/
+theorem silent_iter {h : Handlers} {a : Addr} {st : List Addr} {i : IterInput} (hmem : ∀ p ∈ i.polls, p.addr ∈ st)
+    (h1 : a ∉ st) (h2 : a ∉ i.incoming) : ∀ e ∈ iterEffects h st i, concerns a e = false ∧ e ≠ .drop a := by
   intro e he
-  cases hc : concerns a e
-  · rfl
-  · obtain ⟨b, hb, hm⟩ := addr_iterEffects hmem he
-    have := hb.symm.trans (concerns_iff.1 hc)
-    simp at this
-    subst this
-    rcases hm with h | h
-    · exact absurd h h1
-    · exact absurd h h2
+  apply silent_of_addr_ne
+  intro hadr
+  obtain ⟨b, hb, hm⟩ := addr_iterEffects hmem he
+  have := hb.symm.trans hadr
+  simp at this
+  subst this
+  rcases hm with h | h
+  · exact absurd h h1
+  · exact absurd h h2
 
-theorem silence_runEffects (a : Addr) : ∀ (is : List IterInput) (st : List Addr), RunOk' st is →
+/-- Everything after the first `x` of `L ++ x :: R`, when `x` is not in `L`, is in `R`. -/
+theorem after_marker {x : Effect} {L R : List Effect} (hL : x ∉ L) :
+    ((L ++ x :: R).dropWhile (· != x)).drop 1 = R := by
+  rw [List.dropWhile_append_of_pos]
+  · simp
+  · intro y hy
+    simp only [bne_iff_ne, ne_eq]
+    intro e; subst e; exact hL hy
+
+/-- The shape of the iteration in which `a` is found closed: what comes before the disconnect dispatch and the
+removal contains neither, and what comes after them in that iteration is nothing for `a`. -/
+theorem closing_iter_split {h : Handlers} {a : Addr} {st : List Addr} {i : IterInput} {is : List IterInput}
+    (hpn : (i.polls.map (·.addr)).Nodup) (hmem : ∀ p ∈ i.polls, p.addr ∈ st)
+    (hnd : (st ++ allIncoming (i :: is)).Nodup)
+    {p : Poll} (hp : p ∈ i.polls) (hpa : p.addr = a) (hpc : closes p = true) :
+    ∃ L R, iterEffects h st i = L ++ onGone h a ++ R ∧
+      Effect.dispatchDisconnect a ∉ L ∧ Effect.drop a ∉ L ∧ ∀ e ∈ R, concerns a e = false := by
+  obtain ⟨hast, _, hnotnext, _⟩ := gone_after_close hmem hnd hp hpa hpc
+  obtain ⟨_, hst, _⟩ := nodup_step hnd
+  obtain ⟨l1, l2, hsplit⟩ := List.append_of_mem hp
+  have hnd2 := hpn
+  rw [hsplit, List.map_append, List.map_cons, List.nodup_append, List.nodup_cons] at hnd2
+  obtain ⟨_, ⟨hl2, _⟩, hl1⟩ := hnd2
+  have hl1' : ∀ q ∈ l1, q.addr ≠ a := by
+    intro q hq
+    have := hl1 q.addr (List.mem_map_of_mem hq) p.addr (by simp)
+    rwa [hpa] at this
+  have hl2' : ∀ q ∈ l2, q.addr ≠ a := by
+    intro q hq e
+    exact hl2 (by rw [hpa, ← e]; exact List.mem_map_of_mem hq)
+  have hpe : pollEffects h i.willPing p = (msgs p.results).flatMap (onMessage h a) ++ onGone h a := by
+    unfold pollEffects; rw [if_pos hpc, hpa]
+  refine ⟨l1.flatMap (pollEffects h i.willPing) ++ (msgs p.results).flatMap (onMessage h a),
+    l2.flatMap (pollEffects h i.willPing) ++ i.incoming.flatMap (onConnect h) ++
+      flush (nextStreams st i) i.outgoing, ?_, ?_, ?_, ?_⟩
+  · unfold iterEffects
+    rw [hsplit, List.flatMap_append, List.flatMap_cons, hpe]
+    simp only [List.append_assoc]
+  · intro hx
+    simp only [List.mem_append, List.mem_flatMap] at hx
+    rcases hx with ⟨q, hq, heq⟩ | ⟨m, _, hm⟩
+    · have := addr_pollEffects heq
+      simp [addrOf] at this
+      exact hl1' q hq this.symm
+    · cases mem_onMessage hm
+  · intro hx
+    simp only [List.mem_append, List.mem_flatMap] at hx
+    rcases hx with ⟨q, hq, heq⟩ | ⟨m, _, hm⟩
+    · have := addr_pollEffects heq
+      simp [addrOf] at this
+      exact hl1' q hq this.symm
+    · cases mem_onMessage hm
+  · intro e he
+    simp only [List.mem_append, List.mem_flatMap] at he
+    cases hcon : concerns a e
+    · rfl
+    · have hadr := concerns_addr hcon
+      rcases he with (⟨q, hq, heq⟩ | ⟨b, hb, heb⟩) | he
+      · have := (addr_pollEffects heq).symm.trans hadr
+        simp at this
+        exact absurd this (hl2' q hq)
+      · rw [mem_onConnect heb] at hadr
+        simp [addrOf] at hadr
+        subst hadr
+        exact absurd hb (hst _ hast).1
+      · obtain ⟨b, bytes, rfl, hb⟩ := mem_flush he
+        simp [addrOf] at hadr
+        subst hadr
+        exact absurd hb hnotnext
+
+theorem silence_runEffects (h : Handlers) (a : Addr) : ∀ (is : List IterInput) (st : List Addr), RunOk' st is →
     (st ++ allIncoming is).Nodup →
-    (∀ e ∈ ((runEffects st is).dropWhile (· != .dispatchDisconnect a)).drop 1, concerns a e = false) ∧
-    (a ∉ st → a ∉ allIncoming is → ∀ e ∈ runEffects st is, concerns a e = false) := by
+    (∀ e ∈ ((runEffects h st is).dropWhile (· != .drop a)).drop 1, concerns a e = false) ∧
+    (h.disconnect = true →
+      ∀ e ∈ ((runEffects h st is).dropWhile (· != .dispatchDisconnect a)).drop 1, concerns a e = false) ∧
+    (a ∉ st → a ∉ allIncoming is → ∀ e ∈ runEffects h st is, concerns a e = false ∧ e ≠ .drop a) := by
   intro is
   induction is with
   | nil => intro st _ _; simp [runEffects]
@@ -515,98 +736,150 @@ theorem silence_runEffects (a : Addr) : ∀ (is : List IterInput) (st : List Add
     cases hs : i.shutdown
     · obtain ⟨hpn, hmem, hnext⟩ := runOk'_cons hs hok
       obtain ⟨hnd', hst, _⟩ := nodup_step hnd
-      obtain ⟨ih1, ih2⟩ := ih _ hnext hnd'
-      have hrun : runEffects st (i :: is) = iterEffects st i ++ runEffects (nextStreams st i) is := by
+      obtain ⟨ih1, ih2, ih3⟩ := ih _ hnext hnd'
+      have hrun : runEffects h st (i :: is) = iterEffects h st i ++ runEffects h (nextStreams st i) is := by
         simp [runEffects, hs]
       rw [hrun]
-      constructor
-      · by_cases hc : closers a i = []
-        · -- no disconnect of `a` in this iteration
-          have hnot : Effect.dispatchDisconnect a ∉ iterEffects st i := by
-            rw [← List.count_eq_zero, count_dd_iterEffects, hc]; rfl
-          rw [List.dropWhile_append_of_pos]
-          · exact ih1
-          · intro x hx
-            simp only [bne_iff_ne, ne_eq]
-            intro e; subst e; exact hnot hx
-        · obtain ⟨p, hp, hpa, hpc⟩ := closedIn_of_closers hc
-          have hast : a ∈ st := hpa ▸ hmem p hp
-          have hclosed : closedIn i a = true := by
-            simp only [closedIn, List.any_eq_true]
-            exact ⟨p, hp, by simp [hpa, hpc]⟩
-          have hnotnext : a ∉ nextStreams st i := by
-            intro hn
-            rcases mem_nextStreams.1 hn with h | h
-            · simp [hclosed] at h
-            · exact (hst a hast).1 h
-          obtain ⟨l1, l2, hsplit⟩ := List.append_of_mem hp
-          have hnd2 := hpn
-          rw [hsplit, List.map_append, List.map_cons, List.nodup_append, List.nodup_cons] at hnd2
-          obtain ⟨_, ⟨hl2, _⟩, hl1⟩ := hnd2
-          have hl1' : ∀ q ∈ l1, q.addr ≠ a := by
-            intro q hq
-            have := hl1 q.addr (List.mem_map_of_mem hq) p.addr (by simp)
-            rwa [hpa] at this
-          have hl2' : ∀ q ∈ l2, q.addr ≠ a := by
-            intro q hq e
-            exact hl2 (by rw [hpa, ← e]; exact List.mem_map_of_mem hq)
-          have hpe : pollEffects i.willPing p =
-              (msgs p.results).map (Effect.dispatchMessage a) ++ [.dispatchDisconnect a] := by
-            unfold pollEffects; rw [if_pos hpc, hpa]
-          have hIE : iterEffects st i =
-              (l1.flatMap (pollEffects i.willPing) ++ (msgs p.results).map (Effect.dispatchMessage a)) ++
-              .dispatchDisconnect a ::
-                (l2.flatMap (pollEffects i.willPing) ++ i.incoming.map .dispatchConnect ++
-                  flush (nextStreams st i) i.outgoing) := by
-            unfold iterEffects
-            rw [hsplit, List.flatMap_append, List.flatMap_cons, hpe]
-            simp only [List.append_assoc, List.cons_append, List.nil_append]
-          rw [hIE, List.append_assoc, List.dropWhile_append_of_pos]
-          · simp only [List.cons_append, List.dropWhile_cons, bne_self_eq_false, Bool.false_eq_true,
-              if_false, List.drop_succ_cons, List.drop_zero]
-            intro e he
-            simp only [List.mem_append, List.mem_flatMap, List.mem_map] at he
-            cases hcon : concerns a e
-            · rfl
-            · have hadr := concerns_iff.1 hcon
-              rcases he with ((⟨q, hq, heq⟩ | ⟨b, hb, rfl⟩) | he) | he
-              · have := (addr_pollEffects heq).symm.trans hadr
-                simp at this
-                exact absurd this (hl2' q hq)
-              · simp [addrOf] at hadr
-                subst hadr
-                exact absurd hb (hst _ hast).1
-              · obtain ⟨b, bytes, rfl, hb⟩ := mem_flush he
-                simp [addrOf] at hadr
-                subst hadr
-                exact absurd hb hnotnext
-              · rw [ih2 hnotnext (hst a hast).2 e he] at hcon
-                exact hcon.symm
-          · intro x hx
-            simp only [bne_iff_ne, ne_eq]
-            intro e; subst e
-            simp only [List.mem_append, List.mem_flatMap, List.mem_map] at hx
-            rcases hx with ⟨q, hq, heq⟩ | ⟨m, _, hm⟩
-            · have := addr_pollEffects heq
-              simp [addrOf] at this
-              exact hl1' q hq this.symm
-            · cases hm
-      · intro h1 h2 e he
-        rw [List.mem_append] at he
-        rcases he with he | he
-        · exact silent_iter hmem h1 (fun h => h2 (mem_allIncoming_cons.2 (Or.inl h))) e he
-        · have hnot : a ∉ nextStreams st i := by
-            intro hn
-            rcases mem_nextStreams.1 hn with h | h
-            · exact h1 h.1
-            · exact h2 (mem_allIncoming_cons.2 (Or.inl h))
-          exact ih2 hnot (fun h => h2 (mem_allIncoming_cons.2 (Or.inr h))) e he
+      by_cases hc : closers a i = []
+      · -- `a` is not found closed in this iteration: neither marker occurs in it
+        have hnodrop : Effect.drop a ∉ iterEffects h st i := by
+          rw [← List.count_eq_zero, count_drop_iterEffects, hc]; rfl
+        have hnodd : Effect.dispatchDisconnect a ∉ iterEffects h st i := by
+          rw [← List.count_eq_zero, count_dd_iterEffects, hc]; simp
+        have skip : ∀ x : Effect, x ∉ iterEffects h st i →
+            (iterEffects h st i ++ runEffects h (nextStreams st i) is).dropWhile (· != x) =
+              (runEffects h (nextStreams st i) is).dropWhile (· != x) := by
+          intro x hx
+          apply List.dropWhile_append_of_pos
+          intro y hy
+          simp only [bne_iff_ne, ne_eq]
+          intro e; subst e; exact hx hy
+        refine ⟨?_, ?_, ?_⟩
+        · rw [skip _ hnodrop]; exact ih1
+        · intro hd; rw [skip _ hnodd]; exact ih2 hd
+        · intro h1 h2 e he
+          rw [List.mem_append] at he
+          rcases he with he | he
+          · exact silent_iter hmem h1 (fun hi => h2 (mem_allIncoming_cons.2 (Or.inl hi))) e he
+          · have hnot : a ∉ nextStreams st i := by
+              intro hn
+              rcases mem_nextStreams.1 hn with hh | hh
+              · exact h1 hh.1
+              · exact h2 (mem_allIncoming_cons.2 (Or.inl hh))
+            exact ih3 hnot (fun hi => h2 (mem_allIncoming_cons.2 (Or.inr hi))) e he
+      · obtain ⟨p, hp, hpa, hpc⟩ := closedIn_of_closers hc
+        obtain ⟨hast, _, hnotnext, hnotinc⟩ := gone_after_close hmem hnd hp hpa hpc
+        obtain ⟨L, R, hIE, hLdd, hLdrop, hR⟩ := closing_iter_split (h := h) hpn hmem hnd hp hpa hpc
+        have hrest : ∀ e ∈ R ++ runEffects h (nextStreams st i) is, concerns a e = false := by
+          intro e he
+          rw [List.mem_append] at he
+          rcases he with he | he
+          · exact hR e he
+          · exact (ih3 hnotnext hnotinc e he).1
+        refine ⟨?_, ?_, ?_⟩
+        · -- after the removal
+          have hL' : Effect.drop a ∉ L ++ (if h.disconnect then [Effect.dispatchDisconnect a] else []) := by
+            intro hx
+            rw [List.mem_append] at hx
+            rcases hx with hx | hx
+            · exact hLdrop hx
+            · split at hx <;> simp at hx
+          have : iterEffects h st i ++ runEffects h (nextStreams st i) is =
+              (L ++ (if h.disconnect then [Effect.dispatchDisconnect a] else [])) ++
+                Effect.drop a :: (R ++ runEffects h (nextStreams st i) is) := by
+            rw [hIE]; unfold onGone; simp only [List.append_assoc, List.cons_append, List.nil_append]
+          rw [this, after_marker hL']
+          exact hrest
+        · intro hd
+          have : iterEffects h st i ++ runEffects h (nextStreams st i) is =
+              L ++ Effect.dispatchDisconnect a :: (Effect.drop a :: (R ++ runEffects h (nextStreams st i) is)) := by
+            rw [hIE]; unfold onGone
+            simp only [hd, if_true, List.append_assoc, List.cons_append, List.nil_append]
+          rw [this, after_marker hLdd]
+          intro e he
+          rw [List.mem_cons] at he
+          rcases he with rfl | he
+          · rfl
+          · exact hrest e he
+        · intro h1 _
+          exact absurd hast h1
     · simp [runEffects, hs, concerns]
 
+/-! ### Polling -/
+
+/-- A client that is not in the table and is never admitted is never polled. -/
+theorem never_polled (a : Addr) : ∀ (is : List IterInput) (st : List Addr), a ∉ st → a ∉ allIncoming is →
+    RunOk' st is → ∀ j ∈ executed is, ∀ p ∈ j.polls, p.addr ≠ a := by
+  intro is
+  induction is with
+  | nil => intro st _ _ _ j hj; simp [executed] at hj
+  | cons i is ih =>
+    intro st h1 h2 hok j hj
+    cases hs : i.shutdown
+    · obtain ⟨_, hmem, hnext⟩ := runOk'_cons hs hok
+      simp only [executed, hs, Bool.false_eq_true, if_false, List.mem_cons] at hj
+      rcases hj with rfl | hj
+      · intro p hp e
+        exact h1 (e ▸ hmem p hp)
+      · have hnot : a ∉ nextStreams st i := by
+          intro hn
+          rcases mem_nextStreams.1 hn with hh | hh
+          · exact h1 hh.1
+          · exact h2 (mem_allIncoming_cons.2 (Or.inl hh))
+        exact ih _ hnot (fun hi => h2 (mem_allIncoming_cons.2 (Or.inr hi))) hnext j hj
+    · simp [executed, hs] at hj
+
+theorem notPolled_run (a : Addr) : ∀ (is : List IterInput) (st : List Addr), RunOk' st is →
+    (st ++ allIncoming is).Nodup → notPolledAfterClose a (executed is) = true := by
+  intro is
+  induction is with
+  | nil => intro st _ _; simp [executed, notPolledAfterClose]
+  | cons i is ih =>
+    intro st hok hnd
+    cases hs : i.shutdown
+    · obtain ⟨_, hmem, hnext⟩ := runOk'_cons hs hok
+      obtain ⟨hnd', _, _⟩ := nodup_step hnd
+      simp only [executed, hs, Bool.false_eq_true, if_false, notPolledAfterClose]
+      split
+      · rename_i hcl
+        simp only [closedIn, List.any_eq_true, Bool.and_eq_true, beq_iff_eq] at hcl
+        obtain ⟨p, hp, hpa, hpc⟩ := hcl
+        obtain ⟨_, _, hnot, hinc⟩ := gone_after_close hmem hnd hp hpa hpc
+        simp only [List.all_eq_true, bne_iff_ne, ne_eq]
+        intro j hj q hq
+        exact never_polled a is _ hnot hinc hnext j hj q hq
+      · exact ih _ hnext hnd'
+    · simp [executed, hs, notPolledAfterClose]
+
+/-- Nothing happens for a client that is neither in the table at the start nor admitted later. -/
+theorem stranger_silent (h : Handlers) (a : Addr) : ∀ (is : List IterInput) (st : List Addr), a ∉ st →
+    a ∉ admitted is → RunOk' st is → ∀ e ∈ runEffects h st is, concerns a e = false ∧ e ≠ .drop a := by
+  intro is
+  induction is with
+  | nil => intro st _ _ _ e he; simp [runEffects] at he
+  | cons i is ih =>
+    intro st h1 h2 hok e he
+    cases hs : i.shutdown
+    · obtain ⟨_, hmem, hnext⟩ := runOk'_cons hs hok
+      simp only [admitted, executed, hs, Bool.false_eq_true, if_false, List.flatMap_cons, List.mem_append,
+        not_or] at h2
+      simp only [runEffects, hs, Bool.false_eq_true, if_false, List.mem_append] at he
+      rcases he with he | he
+      · exact silent_iter hmem h1 h2.1 e he
+      · have hnot : a ∉ nextStreams st i := by
+          intro hn
+          rcases mem_nextStreams.1 hn with hh | hh
+          · exact h1 hh.1
+          · exact h2.1 hh
+        exact ih _ hnot h2.2 hnext e he
+    · simp only [runEffects, hs, if_true, List.mem_singleton] at he
+      subst he
+      exact ⟨rfl, by simp⟩
+
 /-- The bridge used by all run theorems: a consistent run does not panic and its trace is the normal form. -/
-theorem run_trace {s : AppState} {is : List IterInput} (hp : s.phase = .running) (hok : RunOk s is = true) :
-    (runLoop s is).2 = runEffects s.streams is :=
-  runLoop_eq is s hp ((runOk_iff is s hp).1 hok)
+theorem run_trace {h : Handlers} {s : AppState} {is : List IterInput} (hp : s.phase = .running)
+    (hok : RunOk h s is = true) : (runLoop h s is).2 = runEffects h s.streams is :=
+  runLoop_eq h is s hp ((runOk_iff h is s hp).1 hok)
 
 
 theorem mem_liveAtFlush {live : List Addr} {i : IterInput} {a : Addr} :
